@@ -144,6 +144,27 @@ def run_compose(ctx: Ctx) -> None:
                 return True, ""
             _guard(ctx, "T4.compose", f"D={D}:ac={ac}", fC, f"compose_flows D={D} align_corners={ac}", th)
 
+            def thn(D=D, shape=shape):
+                # batches of fields (N, D, ..., X): every pair is composed on its own
+                reset_relations()
+                fresh_facts()
+                it = make_interp(ctx)
+                u = STensor.symbols("u", [2, D] + list(shape))
+                v = STensor.symbols("v", [2, D] + list(shape))
+                u0, v0 = u.clone(), v.clone()
+                w = it.call(fC, u, v)
+                if list(w.shape) != [2, D] + list(shape):
+                    return False, f"result of a batch of 2 has shape {list(w.shape)}"
+                for n in range(2):
+                    wn = it.call(fC, u0[n:n + 1].clone(), v0[n:n + 1].clone())
+                    if not teq(w[n:n + 1], wn):
+                        return False, f"item {n} of the batched composition differs from composing that pair on its own"
+                if not teq(u, u0) or not teq(v, v0):
+                    return False, "compose_flows modified one of its arguments"
+                return True, ""
+            if ac:
+                _guard(ctx, "T4.compose", f"D={D}:batch", fC, f"compose_flows D={D} batch of 2", thn)
+
             def thl(D=D, shape=shape, ac=ac):
                 reset_relations()
                 fresh_facts()
